@@ -35,6 +35,11 @@ ASSUMPTIONS = ["argument and result values are small integers (no 1 == True == 1
                "overwritten by that recomputation's completion, on both sides",
                "alazy_constant: the clock is positive and monotone in the monitored stream"]
 
+EXPLANATION = ("19 Coq theorems about Cache.v (see docs/C13.md) + differential run of every generated history through Cache.run_both and "
+               "through alru_cache / acached_per_instance / alazy_constant in both builds (results, cache sizes, body-run log per operation) + "
+               "reference-cache monitors. Open finding (known/C13.json): alru_cache's default key drops argument 0 from arg_names "
+               "(tools.py:229); the theorems are about the repaired construction, the tree's construction is Cache.run_case_src.")
+
 LETTERS = "abcdefghijklmnopqrstuvwxyz"
 SELF = 99
 
